@@ -179,9 +179,10 @@ theorem drainLoop_rd (m : Machine) (u : UEnv) : ∀ (budget : Nat) (s : St),
       · rw [drainLoop_not_running m u n hrun]; split <;> rfl
 
 theorem syncSend_running (m : Machine) (u : UEnv) (e : Ev) (s : St) (hrun : s.status = "running") :
-    syncSend m u e s = drainLoop m u m.maxIterations { s with queue := s.queue ++ [⟨e, false⟩] } := by
-  unfold syncSend sndUnflagged drainFlagged
+    syncSend m u e s = drainLoop m u (m.maxIterations + (s.queue.length + 1)) { s with queue := s.queue ++ [⟨e, false⟩] } := by
+  unfold syncSend sndUnflagged drainFlagged drainBudget
   rw [if_pos hrun]
+  simp
 
 /-- a call of the sync engine that does not raise ends in a quiescent state again -/
 theorem syncSend_quiescent (m : Machine) (u : UEnv) (e : Ev) (s : St) (hq : Quiescent m s)
@@ -191,7 +192,7 @@ theorem syncSend_quiescent (m : Machine) (u : UEnv) (e : Ev) (s : St) (hq : Quie
     rw [syncSend_running m u e s hrun] at he hh ⊢
     refine ⟨drainLoop_queue_nil m u _ _ he, ?_, ?_, hh⟩
     · rw [drainLoop_rd]; exact hq.rd
-    · have h := drainLoop_status m u m.maxIterations { s with queue := s.queue ++ [⟨e, false⟩] }
+    · have h := drainLoop_status m u (m.maxIterations + (s.queue.length + 1)) { s with queue := s.queue ++ [⟨e, false⟩] }
       rcases h with h | ⟨_, h⟩
       · left; rw [h]; exact hrun
       · right; exact h
